@@ -44,7 +44,7 @@ ASSUMPTIONS = [
     "the heading shows the count scaled with the recipe (header note) is covered by the correspondence oracle only",
 ]
 RULE = ("documents whose first heading is ATX / setext (closing hashes, leading spaces, multi-line setext), level 1 or 2, "
-        "preceded or not by prose / recipe blocks / quoted headings, followed by further headings; titles with 'for', "
+        "preceded or not by prose / recipe blocks / quoted headings, followed by further headings; one- and two-character titles (letter, digit, astral), titles with 'for', "
         "digits, punctuation, entities, non-ASCII, '%', inline markup, scaled-value braces; every documented phrase x "
         "case variants (incl. U+017F, U+212A, U+0130/0131) x spacings (space, tab, NBSP, U+3000, several) x N (1 digit "
         "to 4301 digits, leading zeros) x trailing space; near-miss endings; a case is non-trivial when the document "
@@ -259,6 +259,10 @@ ENTITY_LIKE_TITLES: List[Tuple[str, str]] = [
     ("&#x26;amp; co", "&amp; co"),
 ]
 TITLES += ENTITY_LIKE_TITLES
+# one- and two-character titles (letter, digit, non-ASCII, astral)
+SHORT_TITLES: List[Tuple[str, str]] = [("A", "A"), ("7", "7"), ("\U0001f355", "\U0001f355"), ("\xe9", "\xe9"), ("ab", "ab"),
+                                       ("x1", "x1"), ("\U0001f355\U0001f355", "\U0001f355\U0001f355"), ("42", "42"), ("z", "z")]
+TITLES += SHORT_TITLES
 PERCENT_TITLES = [("100% rye", "100% rye"), ("50%", "50%"), ("Rye (100%)", "Rye (100%)")]
 MARKUP_TITLES = ["*Spam*", "`code` pie", "[Spam](http://x)", "Spam <b>bold</b>", "Spam **and** eggs", "{2} eggs", "Eggs {1/2}",
                  "![img](a.png) cake", "<span>x</span>"]
@@ -452,6 +456,18 @@ def suites(tier: str, seed: int) -> List[Suite]:
                     if doc not in seen:
                         seen.add(doc)
                         ti.cases.append(make_case(doc, spec, ["systematic", "phrase:" + " ".join(ph)]))
+    # every documented phrase after one- and two-character titles, ATX and setext
+    for ph in phrases:
+        for src, plain in SHORT_TITLES:
+            for style in ("atx", "setext"):
+                inline = src + " " + " ".join(ph) + " 3"
+                doc = ("# " + inline + "\n\nProse.\n") if style == "atx" else (inline + "\n===\n\nProse.\n")
+                spec = {"captured": True, "phrase": " ".join(ph), "n": 3, "title": plain, "percent": False, "huge": False,
+                        "heading": inline, "heading_plain": inline}
+                if doc not in seen and structure_ok(doc, spec):
+                    seen.add(doc)
+                    ti.cases.append(make_case(doc, spec, ["systematic", "short-title", "phrase:" + " ".join(ph),
+                                                          "style:" + style]))
     ti.cases.append(make_case("Just prose, no heading.\n", {"captured": False, "why_not": "there is no heading",
                                                              "percent": False, "phrase": None}, ["no-heading"]))
     for _ in range(n):
